@@ -25,7 +25,7 @@ func VerifNewTable(pkg *types.Package, prefix string, reserved []string, autonam
 	for _, r := range reserved {
 		res[r] = struct{}{}
 	}
-	return &VerifTable{tm: newTypesMap(qual, prefix, res, autoname, dedup).(*typesMap), p: p}
+	return &VerifTable{tm: newTypesMap(qual, prefix, res, make(map[string]string), autoname, dedup).(*typesMap), p: p}
 }
 
 func (t *VerifTable) SetFuncName(name string, typs ...types.Type) (string, error) {
